@@ -71,14 +71,18 @@ type Case struct {
 type Options struct {
 	Variant  string // key cache policy used for "cached": simple | lru | lfu | slru | tinylfu
 	Capacity int    // capacity for non-simple policies
-	Seed     int64
-	Service  string
-	Product  string
-	Suffix   string // region suffix ("" = none)
-	Strict   bool   // compare with the model's predicted calls/outcomes and report drift
+	// SKCapacity, if > 0, is a different SystemKeyCacheMaxSize (the two sizes are separate policy fields; every cache must be
+	// sized by its own)
+	SKCapacity int
+	Seed       int64
+	Service    string
+	Product    string
+	Suffix     string // region suffix ("" = none)
+	Strict     bool   // compare with the model's predicted calls/outcomes and report drift
 	// SharedNoCache: configurations with ik = "shared" are built with CacheIntermediateKeys = false. newSession looks only at
 	// SharedIntermediateKeyCache, so the SDK still uses the factory's shared cache and Envelope.tla's "shared" mode describes both.
 	SharedNoCache bool
+	Cancel        int // per-mille probability that the caller's context is cancelled while a KMS call of the operation returns
 	IFail         int // per-mille probability that an operation gets an injected secret-allocation or AEAD failure
 }
 
@@ -156,6 +160,9 @@ func (r *runner) policy(pc ProcCfg) *appencryption.CryptoPolicy {
 	}
 	pol.IntermediateKeyCacheMaxSize = capa
 	pol.SystemKeyCacheMaxSize = capa
+	if r.opt.SKCapacity > 0 {
+		pol.SystemKeyCacheMaxSize = r.opt.SKCapacity
+	}
 	return pol
 }
 
@@ -256,6 +263,22 @@ func (r *runner) startOp(p *proc, st Step) {
 			p.crypto.FailNext = 1 + r.rng.Intn(4)
 		}
 	}
+	ctx := context.Background()
+	p.kms.OnReturn = nil
+	if r.opt.Cancel > 0 && r.rng.Intn(1000) < r.opt.Cancel {
+		// the caller gives up while the operation is in flight: its context is cancelled at the moment the n-th KMS call returns
+		// (the SDK may stop early, but not without wiping what it holds; the operation counts as faulted for the other clauses)
+		cctx, cancel := context.WithCancel(ctx)
+		ctx = cctx
+		n := 1 + r.rng.Intn(2)
+		w, pn := r.w, p.name
+		p.kms.OnReturn = func() {
+			if n--; n == 0 {
+				w.Emit(fakes.Event{"e": "ifault", "p": pn, "what": "caller-context-cancelled"})
+				cancel()
+			}
+		}
+	}
 	p.busy = true
 	go func() {
 		var res opResult
@@ -266,7 +289,6 @@ func (r *runner) startOp(p *proc, st Step) {
 			}
 			p.done <- res
 		}()
-		ctx := context.Background()
 		switch st.Cmd {
 		case "Enc":
 			pl := r.payload()
@@ -461,7 +483,11 @@ func (r *runner) liveBound(p *proc) int {
 	}
 	b := 0
 	if p.cfg.SK {
-		b += r.opt.Capacity
+		if r.opt.SKCapacity > 0 {
+			b += r.opt.SKCapacity
+		} else {
+			b += r.opt.Capacity
+		}
 	}
 	switch p.cfg.IK {
 	case "shared":
@@ -549,7 +575,7 @@ func Run(c *Case, opt Options) (events []fakes.Event, drift []string, fatal stri
 	}
 	fits := opt.Variant == "" || opt.Variant == "simple" || opt.Capacity == 0 || opt.Capacity >= 50
 	r.w.Emit(fakes.Event{"e": "reset", "E": c.Params.E, "R": c.Params.R, "P": c.Params.P, "now": now, "cfg": cfgEv,
-		"variant": opt.Variant, "capacity": opt.Capacity, "fits": fits, "sharedNoCache": opt.SharedNoCache, "frac": c.Params.Frac})
+		"variant": opt.Variant, "capacity": opt.Capacity, "fits": fits, "skcap": opt.SKCapacity, "sharedNoCache": opt.SharedNoCache, "frac": c.Params.Frac})
 	defer func() {
 		if x := recover(); x != nil {
 			fatal = fmt.Sprintf("driver panic: %v\n%s", x, debug.Stack())
@@ -712,6 +738,9 @@ func Replay(inPath, tracePath, outPath string, opt Options, variants []string, c
 			o.Capacity = capacities[(n/7)%len(capacities)]
 		}
 		o.SharedNoCache = (n/2)%2 == 1
+		if o.Capacity == 0 && o.Variant != "" && o.Variant != "simple" && (n/5)%2 == 1 {
+			o.SKCapacity = 1 // the IK caches keep their large size; the monitor applies the C20 clauses while one system key exists
+		}
 		if n%3 == 0 {
 			o.Suffix = "us-west-2" // region-suffixed key ids (a metastore exposing GetRegionSuffix)
 		}
